@@ -72,6 +72,7 @@ type choiceRec struct {
 }
 
 type pathSample struct {
+	Choices   []choiceRec       `json:"choices,omitempty"`
 	Model     map[string]string `json:"model,omitempty"`
 	Events    []string `json:"events"`
 	PCSize    int      `json:"pc_size"`
@@ -729,8 +730,8 @@ func (e *explorer) merge(ex *exec) {
 	if len(ex.failures) > 0 && e.cfg.stopAtFirst {
 		go e.stop("stopped at first failure")
 	}
-	if len(r.Samples) < e.cfg.sampleCount && st == "ok" && len(ex.failures) == 0 && ex.sampleModel != nil && len(ex.events) >= r.minSampleEvents {
-		r.Samples = append(r.Samples, pathSample{Model: ex.sampleModel, Events: ex.sampleEvents, PCSize: len(ex.pc), SymVars: len(ex.vars), Decisions: ex.pos, Status: st})
+	if len(r.Samples) < e.cfg.sampleCount && st == "ok" && len(ex.failures) == 0 && ex.sampleModel != nil && (len(ex.events) >= r.minSampleEvents || (len(ex.events) == 0 && len(ex.vars)+len(ex.choices) > 0)) {
+		r.Samples = append(r.Samples, pathSample{Choices: append([]choiceRec{}, ex.choices...), Model: ex.sampleModel, Events: ex.sampleEvents, PCSize: len(ex.pc), SymVars: len(ex.vars), Decisions: ex.pos, Status: st})
 	}
 }
 
